@@ -315,6 +315,126 @@ Proof.
   exact (refine_parts' fs (s_data sr) p r sp ep Rp (SAC r eq_refl eq_refl eq_refl) (EAC r eq_refl eq_refl eq_refl)).
 Qed.
 
+(* the combination of search areas that estimate_lines marks unreachable!() is never produced by RoughPos::new *)
+Definition area_ok (r:rough) : Prop :=
+  match start_area_ r, end_area_ r with STillEnd _, EWindow _ _ => False | _, _ => True end.
+
+Lemma rough_new_areas lo hi :
+  match rough_new (s_data sr) lo hi with Ok r => area_ok r | Err _ => True | Panic => False | OutOfFuel => False end.
+Proof.
+  destruct R as [RD W RR RDn].
+  destruct l as [|x t] eqn:El.
+  { unfold rough_new, checked_start_time, data_range.
+    rewrite (rd_entries _ _ _ _ _ _ _ _ RD). rewrite (sections_encode p [] W). exact I. }
+  rewrite <- El in *.
+  set (ts0 := fst x). set (lastts := fst (last t x)).
+  destruct (full_after_cons_none p x t) as [f' FA]. rewrite El in RD. rewrite FA in RD.
+  change (option_map fst (last_opt (x :: t))) with (Some lastts) in RD. rewrite <- El in RD.
+  pose proof (all_lines_in_range x t El W) as INR. fold ts0 lastts in INR.
+  destruct (main_facts p l W) as (G & EB & ER & HB).
+  set (ss := secs_of l) in *.
+  assert (SS0 : exists ls0 t0, ss = (ts0, ls0) :: t0).
+  { unfold ss. rewrite El, secs_of_cons. eauto. }
+  destruct SS0 as (ls0 & t0 & ESS).
+  assert (DR : data_range (s_data sr) = Ok (Some (ts0, lastts))).
+  { unfold data_range. rewrite (rd_entries _ _ _ _ _ _ _ _ RD), (sections_encode p l W), (secs_from_sections p l 0).
+    fold ss. rewrite ESS. cbn [ents fst]. rewrite (rd_last _ _ _ _ _ _ _ _ RD). reflexivity. }
+  assert (FL : (ts0 <= lastts)%N).
+  { rewrite Forall_forall in INR. specialize (INR x ltac:(rewrite El; left; reflexivity)). lia. }
+  unfold rough_new, checked_start_time, checked_end_time. rewrite DR. cbn [bind].
+  destruct (lo_ts lo ts0) as [s0|] eqn:LO.
+  2:{ destruct lo as [tl|tl|]; cbn [lo_ts] in LO; try discriminate.
+      destruct (tl + 1 <? U64)%N eqn:C; [discriminate|]. cbn [bind]. exact I. }
+  assert (LOE : (match lo with
+                 | Incl ts => Ok ts
+                 | Excl ts => if (ts + 1 <? U64)%N then Ok (ts + 1)%N else Err ERange
+                 | Unb => Ok ts0 end) = Ok s0).
+  { destruct lo as [tl|tl|]; cbn [lo_ts] in LO; try (inversion LO; reflexivity).
+    destruct (tl + 1 <? U64)%N; inversion LO. reflexivity. }
+  rewrite LOE. cbn [bind].
+  set (s := N.max s0 ts0) in *.
+  destruct (lastts <? s)%N eqn:CS. { cbn [bind]. exact I. }
+  apply N.ltb_ge in CS. cbn [bind].
+  destruct (hi_ts hi lastts) as [e0|] eqn:HI.
+  2:{ destruct hi as [th|th|]; cbn [hi_ts] in HI; try discriminate.
+      destruct (th =? 0)%N eqn:C; [|discriminate]. cbn [bind]. exact I. }
+  assert (HIE : (match hi with
+                 | Incl ts => Ok ts
+                 | Excl ts => if (ts =? 0)%N then Err ERange else Ok (ts - 1)%N
+                 | Unb => Ok lastts end) = Ok e0).
+  { destruct hi as [th|th|]; cbn [hi_ts] in HI; try (inversion HI; reflexivity).
+    destruct (th =? 0)%N; inversion HI. reflexivity. }
+  rewrite HIE. cbn [bind].
+  set (e := N.min e0 lastts) in *.
+  destruct (e <? ts0)%N eqn:CE. { cbn [bind]. exact I. }
+  apply N.ltb_ge in CE. cbn [bind].
+  destruct (e <? s)%N eqn:CSE. { exact I. }
+  apply N.ltb_ge in CSE.
+  destruct (locate_exists p ss s G ltac:(rewrite ESS; discriminate) ltac:(rewrite ESS; cbn [hd fst]; unfold s; lia))
+    as (pre_s & f_s & ls_s & post_s & Ls).
+  destruct (locate_exists p ss e G ltac:(rewrite ESS; discriminate) ltac:(rewrite ESS; cbn [hd fst]; lia))
+    as (pre_e & f_e & ls_e & post_e & Le).
+  destruct Ls as (Es & Hfs & Hns). destruct Le as (Ee & Hfe & Hne).
+  assert (Gs : good_secs p (pre_s ++ (f_s, ls_s) :: post_s)) by (rewrite <- Es; exact G).
+  assert (Ge : good_secs p (pre_e ++ (f_e, ls_e) :: post_e)) by (rewrite <- Ee; exact G).
+  assert (PB : forall pre f ls post, ss = pre ++ (f, ls) :: post -> forall f2 l2 post', post = (f2, l2) :: post' -> (f2 < 2 ^ 64)%N).
+  { intros pre f ls post E f2 l2 post' EP. rewrite E, EP in HB. apply Forall_app in HB. destruct HB as [_ H].
+    inversion H as [|? ? _ H2]; subst. inversion H2; subst. assumption. }
+  pose proof (start_area_spec p pre_s f_s ls_s post_s Gs s Hfs Hns (PB _ _ _ _ Es)) as SA.
+  pose proof (end_area_spec p pre_e f_e ls_e post_e Ge e Hfe Hne (PB _ _ _ _ Ee)) as EA.
+  rewrite <- Es in SA. rewrite <- Ee in EA.
+  assert (ENT : ix_entries (d_index (s_data sr)) = ents p 0 ss).
+  { rewrite (rd_entries _ _ _ _ _ _ _ _ RD), (sections_encode p l W). apply secs_from_sections. }
+  rewrite ENT, (rd_p _ _ _ _ _ _ _ _ RD).
+  (* the end half never panics *)
+  assert (EOK : exists ea, (match hi with
+                  | Unb => if (d_len (s_data sr) <? line_size p)%N then Panic else
+                           match ix_last (d_index (s_data sr)) with
+                           | Some l0 => Ok (EFound (d_len (s_data sr) - line_size p)%N, l0)
+                           | None => Panic
+                           end
+                  | _ => end_search_bounds (ents p 0 ss) p e
+                  end) = Ok ea
+                /\ (forall a b, fst ea = EWindow a b -> exists f2 l2 post', post_e = (f2, l2) :: post')).
+  { assert (BOUNDED : exists ea, end_search_bounds (ents p 0 ss) p e = Ok ea
+                /\ (forall a b, fst ea = EWindow a b -> exists f2 l2 post', post_e = (f2, l2) :: post')).
+    { rewrite EA. eexists. split; [reflexivity|]. intros a b H.
+      destruct (f_e =? e)%N; [discriminate|]. destruct post_e as [|[f2 l2] post']; [discriminate|]. eauto. }
+    destruct hi as [th|th|]; try exact BOUNDED.
+    assert (DL : (line_size p <= d_len (s_data sr))%N).
+    { rewrite (rd_len _ _ _ _ _ _ _ _ RD). unfold len. rewrite (encode_length p l (wf_payloads p l W)).
+      rewrite El. cbn [slots_from]. unfold line_size. nia. }
+    replace (d_len (s_data sr) <? line_size p)%N with false by (symmetry; apply N.ltb_ge; exact DL).
+    rewrite (rd_ix_last _ _ _ _ _ _ _ _ RD). eexists. split; [reflexivity|]. intros a b H. discriminate H. }
+  destruct EOK as (ea & EOK & EW).
+  (* the start half *)
+  assert (SOK : exists sa, (match lo with
+                  | Unb => match ents p 0 ss with [] => Panic | e1 :: _ => Ok (SFound (line_start p 0), fst e1) end
+                  | _ => start_search_bounds (ents p 0 ss) p s
+                  end) = Ok sa
+                /\ (forall a, fst sa = STillEnd a -> post_s = [] /\ (f_s < s)%N)).
+  { assert (BOUNDED : exists sa, start_search_bounds (ents p 0 ss) p s = Ok sa
+                /\ (forall a, fst sa = STillEnd a -> post_s = [] /\ (f_s < s)%N)).
+    { rewrite SA. eexists. split; [reflexivity|]. intros a H.
+      destruct (f_s =? s)%N eqn:C; [discriminate|]. apply N.eqb_neq in C.
+      destruct post_s as [|[f2 l2] post']; [split; [reflexivity|lia]|]. destruct (f_s + MAXD <? s)%N; discriminate. }
+    destruct lo as [tl|tl|]; try exact BOUNDED.
+    rewrite ESS. cbn [ents]. eexists. split; [reflexivity|]. intros a H. discriminate H. }
+  destruct SOK as (sa & SOK & SW).
+  rewrite SOK. cbn [bind]. rewrite EOK. cbn [bind].
+  unfold area_ok. cbn [start_area_ end_area_].
+  destruct (fst sa) as [a1| |a1|a1 a2|a1] eqn:FS; try (destruct (fst ea); exact I).
+  destruct (fst ea) as [b1|b1|b1 b2|b1] eqn:FE; try exact I.
+  destruct (SW a1 eq_refl) as [PS Hlt]. destruct (EW b1 b2 eq_refl) as (f2 & l2 & post' & PE).
+  subst post_s post_e.
+  assert (IN : In (f2, l2) (pre_s ++ [(f_s, ls_s)])).
+  { rewrite <- Es, Ee. apply in_or_app. right. right. left. reflexivity. }
+  pose proof (good_before p _ _ _ Gs) as GB. rewrite Forall_forall in GB.
+  apply in_app_or in IN. destruct IN as [IN|[IN|[]]].
+  - specialize (GB _ IN). cbn [fst] in GB. lia.
+  - inversion IN; subst. lia.
+Qed.
+
 (* ---- the reading operations of ByteSeries, for every pair of bounds ---- *)
 Lemma select_wf lo hi : wf_series p (select lo hi l).
 Proof. unfold select. apply filter_wf. exact (rh_wf _ _ _ _ _ _ R). Qed.
@@ -382,11 +502,11 @@ Proof.
 Qed.
 
 (* C14: the reported line count of a range *)
-Theorem n_lines_ok lo hi :
+Theorem n_lines_ok_full lo hi :
   (exists k, n_lines_between sr lo hi fs = (fs, Ok k)
              /\ match select lo hi l with
                 | [] => k = 0%N
-                | _ => exists pf, (len (select lo hi l) <= k)%N
+                | _ => exists pf, ok_from p (Some pf) (select lo hi l) /\ (len (select lo hi l) <= k)%N
                                   /\ k = (len (select lo hi l) + N.of_nat (Layout.K p * length (secs_from p (Some pf) 0 (select lo hi l))))%N
                 end)
   \/ (select lo hi l = [] /\ n_lines_between sr lo hi fs = (fs, Err ERange))
@@ -404,7 +524,7 @@ Proof.
         unfold line_size. rewrite N.div_mul by lia. rewrite slots_from_lines.
         destruct (select lo hi l) as [|x t] eqn:ES.
         -- cbn [slots_from] in LEN. lia.
-        -- exists (p_full q). unfold len. split; lia.
+        -- exists (p_full q). unfold len. split; [exact OKF|split; lia].
       * eexists. split; [reflexivity|]. rewrite GOOD. reflexivity.
     + right. left. split; [exact SE|]. apply mbind_err. exact SK.
   - destruct SKO as [(ps & SK & _)|(SE & SK)]; [discriminate|].
@@ -417,6 +537,21 @@ Proof.
   - destruct SKO as [(ps & SK & _)|(_ & SK)]; discriminate.
   - destruct SKO as [(ps & SK & _)|(_ & SK)]; discriminate.
 Qed.
+
+Theorem n_lines_ok lo hi :
+  (exists k, n_lines_between sr lo hi fs = (fs, Ok k)
+             /\ match select lo hi l with
+                | [] => k = 0%N
+                | _ => exists pf, (len (select lo hi l) <= k)%N
+                                  /\ k = (len (select lo hi l) + N.of_nat (Layout.K p * length (secs_from p (Some pf) 0 (select lo hi l))))%N
+                end)
+  \/ (select lo hi l = [] /\ n_lines_between sr lo hi fs = (fs, Err ERange))
+  \/ (select lo hi l = [] /\ l = [] /\ n_lines_between sr lo hi fs = (fs, Ok 0%N)).
+Proof.
+  destruct (n_lines_ok_full lo hi) as [(k & E & H)|H]; [left|right; exact H].
+  exists k. split; [exact E|]. destruct (select lo hi l); [exact H|]. destruct H as (pf & _ & H). exists pf. exact H.
+Qed.
+
 
 (* C10 for every range (no caches): uniform bucket means of exactly the selected lines, bucket size
    b = max 1 (m / n) with m the slots of the byte range, at most 2n samples *)
